@@ -139,6 +139,8 @@ Proof. intros H. rewrite firstn_length. lia. Qed.
 
 Definition slice {A} (off len : nat) (l : list A) : list A := firstn len (skipn off l).
 
+Definition is_nilb {A} (l : list A) : bool := match l with [] => true | _ => false end.
+
 Definition zeros (k : nat) : bytes := repeat x00 k.
 Lemma zeros_length k : length (zeros k) = k.
 Proof. apply repeat_length. Qed.
